@@ -578,7 +578,31 @@ fn json_mismatch_with_slack(a: &Value, b: &Value, sc: &Scale, slack: f64) -> Opt
     let f = worldp::json_max_factor(a).max(worldp::json_max_factor(b));
     let area = if sc.area > 0.0 { sc.area } else { 1.0 };
     let tol = crate::cmp::C_ABS * EPS * sc.e_an.max(sc.n_an) * f + 0.0011 + slack * f;
-    fn walk(path: &str, a: &Value, b: &Value, tol: f64, out: &mut Option<String>) {
+    // by-service weighted energies: amplification |W_carrier| / epus_carrier (see cmp::compare)
+    let mut amp = 0.0f64;
+    if slack > 0.0 {
+        if let Some(crs) = a.get("balance_cr").and_then(|v| v.as_object()) {
+            for (cname, ca) in crs {
+                let epus = ca.pointer("/used/epus_an").and_then(|v| v.as_f64()).unwrap_or(0.0).abs();
+                if epus <= 0.0 {
+                    continue;
+                }
+                let mut w = 0.0f64;
+                for doc in [a, b] {
+                    for step in ["a", "b"] {
+                        for comp in ["ren", "nren", "co2"] {
+                            if let Some(v) = doc.pointer(&format!("/balance_cr/{}/we/{}/{}", cname, step, comp)).and_then(|v| v.as_f64()) {
+                                w = w.max(v.abs());
+                            }
+                        }
+                    }
+                }
+                amp += w / epus;
+            }
+        }
+    }
+    let by_srv_extra = slack * amp;
+    fn walk(path: &str, a: &Value, b: &Value, tol: f64, srv_extra: f64, out: &mut Option<String>) {
         if out.is_some() {
             return;
         }
@@ -588,11 +612,12 @@ fn json_mismatch_with_slack(a: &Value, b: &Value, sc: &Scale, slack: f64) -> Opt
                 for k in keys {
                     let zero = Value::from(0.0);
                     let (va, vb) = (x.get(k).unwrap_or(&zero), y.get(k).unwrap_or(&zero));
-                    walk(&format!("{}.{}", path, k), va, vb, tol, out);
+                    walk(&format!("{}.{}", path, k), va, vb, tol, srv_extra, out);
                 }
             }
             (Value::Number(x), Value::Number(y)) => {
                 let (x, y) = (x.as_f64().unwrap_or(f64::NAN), y.as_f64().unwrap_or(f64::NAN));
+                let tol = if path.contains("_by_srv") && path.contains(".we.") { tol + srv_extra } else { tol };
                 if !((x - y).abs() <= tol) {
                     *out = Some(format!("{}: {} vs {} (tol {:e})", path, x, y, tol));
                 }
@@ -610,10 +635,10 @@ fn json_mismatch_with_slack(a: &Value, b: &Value, sc: &Scale, slack: f64) -> Opt
     }
     let mut out = None;
     if let (Some(x), Some(y)) = (a.get("balance"), b.get("balance")) {
-        walk("balance", x, y, tol, &mut out);
+        walk("balance", x, y, tol, by_srv_extra, &mut out);
     }
     if let (Some(x), Some(y)) = (a.get("balance_m2"), b.get("balance_m2")) {
-        walk("balance_m2", x, y, tol / area + 0.0011, &mut out);
+        walk("balance_m2", x, y, tol / area + 0.0011, by_srv_extra / area, &mut out);
     }
     let den = |j: &Value| (j.pointer("/balance/we/b/ren").and_then(|v| v.as_f64()).unwrap_or(0.0) + j.pointer("/balance/we/b/nren").and_then(|v| v.as_f64()).unwrap_or(0.0)).abs();
     let d = den(a).min(den(b));
